@@ -1172,6 +1172,20 @@ LAW(L6_builtin_matrix, RC, 5000, 150000, 160, "the equilibrium vector is asked a
     if (preset == 2) slow = true;
     builtinRound(c, b, route, preset, queries);
   }
+  // the alphabet setter, documented to refuse a null pointer and otherwise to install the alphabet: with a fresh alphabet of the
+  // same size the exposed matrix is still the one the current parameter values dictate (no draw: older replays decode unchanged)
+  {
+    bool thrown = false;
+    try { b.T->setHmmStateAlphabet(nullptr); } catch (HmmUnvalidAlphabetException&) { thrown = true; }
+    CHECK(thrown, "setHmmStateAlphabet(null) did not raise HmmUnvalidAlphabetException");
+    auto a2 = make_shared<Alpha>(n);
+    b.T->setHmmStateAlphabet(a2);
+    c.desc << " | setHmmStateAlphabet(fresh alphabet, same size) Pij";
+    CHECK(b.T->getHmmStateAlphabet() == a2, "getHmmStateAlphabet() does not return the alphabet that was just set");
+    CHECK(b.T->getNumberOfStates() == n, "getNumberOfStates() = " << b.T->getNumberOfStates() << " after setting an alphabet of " << n << " states");
+    checkMatrixQuery(c, b, 1, documentedMatrix(b));
+    b.a = a2;
+  }
   c.nt(eqAfterPij || slow || rounds >= 2);
 }
 
